@@ -428,6 +428,11 @@ func runCheck(repo, verif, prop, tier string, seed int, overlay map[string][]byt
 		}
 		rep.Violations++
 		rep.Failed = append(rep.Failed, sum)
+		if worst.Query != "" {
+			// keep the undecided/refuted query next to the replay file (replays/ is scratch)
+			os.MkdirAll(filepath.Join(verif, "replays", prop), 0o755)
+			os.WriteFile(filepath.Join(verif, "replays", prop, mangle(n)+".smt2"), []byte(worst.Query), 0o644)
+		}
 		rp, confirmed := e.replayViolation(verif, prop, worst, d)
 		line := fmt.Sprintf("VIOLATION property=%s replay=%s", prop, rp)
 		if !confirmed {
